@@ -1,10 +1,14 @@
 // C18: round_pow2 / ipow exactness at several widths; curve storage large enough.
 #include <bit>
 #include <cstdint>
+#include <limits>
+#include <sstream>
+#include <vector>
 
 #include <covfie/core/backend/primitive/array.hpp>
 #include <covfie/core/backend/transformer/strided.hpp>
 #include <covfie/core/field.hpp>
+#include <covfie/core/field_view.hpp>
 #include <covfie/core/utility/numeric.hpp>
 #if defined(SH_SIZING_MORTON)
 #include <covfie/core/backend/transformer/morton.hpp>
@@ -210,6 +214,94 @@ static void sizing_morton(std::size_t B)
 #endif
 }
 
+template <int O, typename IDX, typename ARR>
+struct narrow_curve;
+#if defined(SH_SIZING_MORTON)
+template <typename IDX, typename ARR>
+struct narrow_curve<0, IDX, ARR> {
+    using type = cb::morton<IDX, ARR, true>;
+};
+template <typename IDX, typename ARR>
+struct narrow_curve<1, IDX, ARR> {
+    using type = cb::morton<IDX, ARR, false>;
+};
+#endif
+#if defined(SH_SIZING_HILBERT)
+template <typename IDX, typename ARR>
+struct narrow_curve<2, IDX, ARR> {
+    using type = cb::hilbert<IDX, ARR>;
+};
+#endif
+
+// The same with storage whose ARRAY INDEX TYPE is narrow and the padded curve fills its whole range: the cell COUNT
+// (2^bits) is then one more than the index type can hold, while every position (<= 2^bits - 1) fits.  O: 0 morton<bmi2>,
+// 1 morton<portable>, 2 hilbert.
+template <int O, std::size_t N, typename AI>
+static void sizing_narrow(const std::vector<covfie::utility::nd_size<N>> & list)
+{
+    using idx_t = cv::vector_d<std::size_t, N>;
+    using arr_t = cb::array<cv::float1, AI>;
+    using src_t = covfie::field<cb::strided<idx_t, arr_t>>;
+    using curve_t = typename narrow_curve<O, idx_t, arr_t>::type;
+    using dst_t = covfie::field<curve_t>;
+    std::string name = std::string("sizing:") + (O == 0 ? "morton<bmi2>" : O == 1 ? "morton<portable>" : "hilbert") + ",N=" + std::to_string(N) + ",array index=" + vh::tn<AI>();
+    if (!vh::selected(name)) return;
+    for (const auto & e : list) {
+        vh::set_case("%s extents=%s", name.c_str(), vh::jarr(e, N).c_str());
+        uint64_t cells = 1, mx = 0;
+        for (std::size_t k = 0; k < N; ++k) {
+            cells *= e[k];
+            mx = e[k] > mx ? e[k] : mx;
+        }
+        src_t src(covfie::make_parameter_pack(typename src_t::backend_t::configuration_t(e)));
+        {
+            typename src_t::view_t v(src);
+            uint64_t c[N] = {};
+            for (uint64_t id = 1;; ++id) {
+                typename src_t::coordinate_t cc;
+                for (std::size_t k = 0; k < N; ++k) cc[k] = c[k];
+                v.at(cc)[0] = (float)id;
+                std::size_t k = 0;
+                while (k < N && ++c[k] >= e[k]) c[k++] = 0;
+                if (k == N) break;
+            }
+        }
+        dst_t dst(src);
+        const uint64_t len = dst.backend().get_backend().get_configuration()[0];
+        uint64_t side = (uint64_t)ref::bit_ceil128(mx), want = 1;
+        for (std::size_t k = 0; k < N; ++k) want *= side;
+        vh::ev();
+        vh::nontrivial(vh::fnv(name, vh::fnv(&e, sizeof e)));
+        // the largest position of an in-range coordinate is below `want` for both curves (C14 pins the positions); the
+        // storage must report at least that many cells, and a copy and a reload of the converted field must hold them all
+        if (len < want && len < cells) vh::viol(name, "extents=" + vh::jarr(e, N) + ": converted field reports " + std::to_string(len) + " cells of storage for " + std::to_string(cells) + " lattice cells");
+        auto all_there = [&](const dst_t & f, const char * what) {
+            typename dst_t::view_t v(f);
+            uint64_t c[N] = {};
+            for (uint64_t id = 1;; ++id) {
+                typename dst_t::coordinate_t cc;
+                for (std::size_t k = 0; k < N; ++k) cc[k] = c[k];
+                vh::ev();
+                if (v.at(cc)[0] != (float)id) {
+                    vh::viol(name + ":" + what, "extents=" + vh::jarr(e, N) + " cell " + vh::jarr(c, N) + " differs in the " + what);
+                    return;
+                }
+                std::size_t k = 0;
+                while (k < N && ++c[k] >= e[k]) c[k++] = 0;
+                if (k == N) break;
+            }
+        };
+        all_there(dst, "converted field");
+        dst_t cp(dst);
+        all_there(cp, "copy of the converted field");
+        std::stringstream ss(std::ios::in | std::ios::out | std::ios::binary);
+        dst.dump(ss);
+        dst_t rl(static_cast<std::istream &>(ss));
+        all_there(rl, "reloaded converted field");
+        vh::sample(name, "extents=" + vh::jarr(e, N) + " storage=" + std::to_string(len) + " index range=" + std::to_string((uint64_t)std::numeric_limits<AI>::max() + 1), 1);
+    }
+}
+
 static void sizing_hilbert(std::size_t B)
 {
 #if defined(SH_SIZING_HILBERT)
@@ -265,6 +357,23 @@ int main(int argc, char ** argv)
         sizing_morton<2, true>(B[2]);
         sizing_morton<3, true>(B[3]);
         sizing_morton<4, true>(B[4]);
+        {
+            using E1 = covfie::utility::nd_size<1>;
+            using E2 = covfie::utility::nd_size<2>;
+            using E4 = covfie::utility::nd_size<4>;
+            sizing_narrow<0, 1, std::uint8_t>({E1{129ul}, E1{200ul}, E1{256ul}, E1{128ul}, E1{7ul}});
+            sizing_narrow<0, 2, std::uint8_t>({E2{9ul, 9ul}, E2{16ul, 16ul}, E2{3ul, 13ul}, E2{16ul, 1ul}, E2{8ul, 8ul}, E2{5ul, 3ul}});
+            sizing_narrow<0, 4, std::uint8_t>({E4{3ul, 4ul, 2ul, 4ul}, E4{4ul, 4ul, 4ul, 4ul}, E4{1ul, 3ul, 1ul, 2ul}});
+            sizing_narrow<0, 2, std::uint16_t>({E2{129ul, 3ul}, E2{256ul, 256ul}, E2{2ul, 200ul}, E2{100ul, 128ul}});
+            sizing_narrow<0, 4, std::uint16_t>({E4{9ul, 2ul, 3ul, 16ul}, E4{16ul, 16ul, 1ul, 1ul}});
+            sizing_narrow<0, 2, std::uint32_t>({E2{300ul, 5ul}, E2{17ul, 33ul}});
+#if defined(SH_PORTABLE)
+            sizing_narrow<1, 1, std::uint8_t>({E1{129ul}, E1{256ul}, E1{31ul}});
+            sizing_narrow<1, 2, std::uint8_t>({E2{9ul, 9ul}, E2{16ul, 16ul}, E2{3ul, 13ul}, E2{8ul, 8ul}});
+            sizing_narrow<1, 2, std::uint16_t>({E2{129ul, 3ul}, E2{256ul, 256ul}});
+            sizing_narrow<1, 4, std::uint16_t>({E4{9ul, 2ul, 3ul, 16ul}});
+#endif
+        }
 #if defined(SH_PORTABLE)
         sizing_morton<1, false>(B[1]);
         sizing_morton<2, false>(B[2]);
@@ -275,6 +384,12 @@ int main(int argc, char ** argv)
 #endif
 #if defined(SH_SIZING_HILBERT)
     sizing_hilbert(th ? 40 : 20);
+    {
+        using E2 = covfie::utility::nd_size<2>;
+        sizing_narrow<2, 2, std::uint8_t>({E2{9ul, 9ul}, E2{16ul, 16ul}, E2{3ul, 13ul}, E2{16ul, 1ul}, E2{8ul, 8ul}, E2{3ul, 7ul}, E2{1ul, 9ul}});
+        sizing_narrow<2, 2, std::uint16_t>({E2{129ul, 3ul}, E2{256ul, 256ul}, E2{2ul, 200ul}, E2{100ul, 128ul}});
+        sizing_narrow<2, 2, std::uint32_t>({E2{300ul, 5ul}, E2{17ul, 33ul}});
+    }
 #endif
     return vh::finish();
 }
